@@ -69,7 +69,7 @@ func pureBehaviour(c *h.HCall) (*puppet.Rep, error) {
 // RunRaces is the engine behind C15 (meaningful only in the -race build).
 func RunRaces(e *Env) {
 	R := e.R
-	R.Rule = "race-detector runs (go build -race) of reduced concurrent workloads over the public API: all 21 call kinds from 8-32 goroutines with cancellations and timeouts, creation of further configurations concurrent with Nodes()/NodeIDs()/Size(), per-node and custom-type calls, " +
+	R.Rule = "race-detector runs (go build -race) of reduced concurrent workloads over the public API: all 21 call kinds from 8-32 goroutines with cancellations and timeouts, creation of further configurations concurrent with Nodes()/NodeIDs()/Size(), per-node and custom-type calls, correctables followed level by level (Watch, Get) from two goroutines while their levels are published, " +
 		"handlers releasing early / from helper goroutines, server restarts under traffic, nodes down at creation being re-dialled, Close concurrent with calls; sleep-driven windows (context end during a delayed write with the watcher delayed before its cancel; re-dial concurrent with Close); " +
 		"sync-free hook (per-thread randomness, sleeps only) and monitors without shared state so that no happens-before edges are added; GOMAXPROCS 2/4/16; oracle: WARNING: DATA RACE blocks parsed from the detector's log files, attributed and de-duplicated by function pair; distinct = workload parameters"
 	R.Assume("the race detector only sees executed code and only races whose two accesses actually happen in the run; reports whose innermost non-runtime frames lie in the harness are harness bugs (exit 3), not findings")
@@ -150,6 +150,32 @@ func RunRaces(e *Env) {
 					op := &Op{Method: m, Node: wr.Intn(n), NoWait: wr.Intn(2) == 0, Threshold: int(th)}
 					if IsPN(m) && wr.Intn(2) == 0 {
 						op.Skip = []int{wr.Intn(n)}
+					}
+					if strings.HasPrefix(m, "Corr") && wr.Intn(2) == 0 {
+						// a correctable followed level by level from two goroutines while its levels are being published
+						skip := map[uint32]bool{}
+						for _, i := range op.Skip {
+							skip[cl.IDs[i]] = true
+						}
+						co := StartCorr(cfg, m, ctx, req, PN(skip))
+						var fwg sync.WaitGroup
+						for f := 0; f < 2; f++ {
+							fwg.Add(1)
+							go func() {
+								defer fwg.Done()
+								for l := 0; l <= n+2; l++ {
+									select {
+									case <-co.Watch(l):
+									case <-co.Done():
+									}
+									co.Raw()
+									co.Get()
+								}
+							}()
+						}
+						fwg.Wait()
+						cancel()
+						continue
 					}
 					wait := Invoke(cl, cfg, op, ctx, req)
 					if wait != nil && wr.Intn(2) == 0 {
